@@ -322,7 +322,7 @@ pub fn run(p: &Params) -> Report {
                     rep.count("skipped:dp_over_dp");
                     continue;
                 }
-                if q.features.contains(&"join_nonkey") {
+                if q.features.contains(&"join_nonkey") || q.features.contains(&"cross_join_protected") {
                     // the tracking restricts such a join to pairs of rows of the same unit: the rewritten
                     // query deliberately computes something else than the original
                     rep.count("skipped:join_of_protected_tables_not_on_the_unit");
